@@ -37,9 +37,13 @@ print("@@" + json.dumps(bad))
 
 def compile_and_import(pkg_dir: Path, root: Path, package: str) -> list[str]:
     problems = []
+    import warnings
+
     for p in sorted(pkg_dir.rglob("*.py")):
         try:
-            compile(p.read_text(encoding="utf-8"), str(p), "exec")
+            with warnings.catch_warnings():
+                warnings.simplefilter("error", SyntaxWarning)  # e.g. "invalid decimal literal" for `7and`
+                compile(p.read_text(encoding="utf-8"), str(p), "exec")
         except SyntaxError as e:
             problems.append(f"{p.relative_to(root)}: SyntaxError {e.msg} line {e.lineno}")
     if problems:
@@ -315,6 +319,15 @@ def _shared_target(doc: dict) -> str | None:
 def _with_bad(doc: dict, kind: str, position: int, dependant: bool) -> dict:
     d = copy.deepcopy(doc)
     comps = d.setdefault("components", {}).setdefault("schemas", {})
+    if kind == "bad_sibling_method":
+        paths = list(d.get("paths", {}).items())
+        if paths:
+            pth, item = paths[position % len(paths)]
+            for m in ("trace", "patch", "head", "options"):
+                if m not in item:
+                    item[m] = {"operationId": "zzBadSibling", "parameters": [{"name": "zz", "in": "query", "schema": {"type": "array"}}], "responses": {"204": {"description": "n"}}}
+                    break
+        return d
     if kind == "shares_ref_then_bad":
         tgt = _shared_target(doc)
         items = list(comps.items())
@@ -360,7 +373,7 @@ def bad_piece_one(doc: dict, kind: str, position: int, dependant: bool) -> list[
             elif f1[k] != v:
                 probs.append(f"module {k} differs when the bad piece is present")
         extra = [k for k in f1 if k not in f0 and not k.endswith("__init__.py")]
-        allowed = ("zz_bad", "zz_depends")
+        allowed = ("zz_bad", "zz_depends", "zz_bad_sibling")
         for k in extra:
             if not any(a in k for a in allowed):
                 probs.append(f"unexpected extra module {k}")
@@ -376,11 +389,16 @@ def bad_pieces(tier: str = "quick", known: list | None = None, **_: Any) -> dict
     names = sorted(docs)
     if tier == "quick":
         names = [n for n in names if n.split(":")[1] in ("nested", "allof", "params", "responses")]
-    kinds = list(BAD_SCHEMAS) + list(BAD_OPERATIONS) + ["shares_ref_then_bad"]
+    kinds = list(BAD_SCHEMAS) + list(BAD_OPERATIONS) + ["shares_ref_then_bad", "bad_sibling_method"]
     wit, n = [], 0
     for name in names:
         for kind in kinds:
-            positions = [0, 1, 99] if tier == "thorough" else ([0, rnd.randint(1, 5)] if kind == "shares_ref_then_bad" else [rnd.randint(0, 5)])
+            if kind == "bad_sibling_method":
+                if not name.startswith("endpoint:"):
+                    continue
+                positions = list(range(len(docs[name].get("paths", {})))) if tier == "thorough" or name.endswith(("responses", "bodies")) else [rnd.randint(0, 5)]
+            else:
+                positions = [0, 1, 99] if tier == "thorough" else ([0, rnd.randint(1, 5)] if kind == "shares_ref_then_bad" else [rnd.randint(0, 5)])
             for pos in positions:
                 for dep in ((False, True) if kind in BAD_SCHEMAS else (False,)):
                     if kind == "shares_ref_then_bad" and not name.startswith("model:"):
